@@ -3024,7 +3024,9 @@ class Choice(Set):
 
     def __iter__(self):
         if self._currentIdx is None:
-            raise StopIteration
+            # nothing chosen, nothing to iterate over (raising StopIteration
+            # inside a generator is a RuntimeError since Python 3.7)
+            return
         yield self.componentType[self._currentIdx].getName()
 
     # Python dict protocol
